@@ -198,9 +198,8 @@ for _n, _e in ELEMENTS.items():
 # methods of a class that exist / match a signal's signature (for setter/getter/emitter targets)
 METHOD_NAMES = {'class[Obj]': {'dup', 'do_thing', 'invoke', 'meth', 'set_prop', 'get_prop', 'emit_sig'},
                 'interface[Iface]': {'ivirt'}}
-# emitter candidates: (class id, signal nparams) -> method names with that many non-instance parameters
-EMITTER_OK = {('class[Obj]', 0): {'meth', 'get_prop', 'dup'}, ('class[Obj]', 1): {'emit_sig', 'invoke', 'set_prop', 'do_thing'}}
-# ... but the emitter must also return what the signal returns (void): keep only void methods
+# emitter candidates: (class id, signal nparams) -> methods with that many non-instance parameters (all
+# signal parameters of the skeleton are gint) that return what the signal returns (void)
 EMITTER_OK = {('class[Obj]', 0): {'meth'}, ('class[Obj]', 1): {'emit_sig', 'invoke', 'set_prop'}}
 
 
@@ -327,9 +326,7 @@ def view(xml_bytes, root=None):
             r = {'tag': k.tag, 'owner': owner, 'attrs': dict(k.attrib), 'info': info,
                  'sig': repr(_sigdump(k)), 'typename': tn, 'refs': refs, 'shape': shape}
             out.setdefault(kid_id, []).append(r)
-            # path of nested identified elements: functions are identified by symbol, so their
-            # own children (none are identified) do not need a path
-            rec(k, kid_id if not kid_id.startswith('fn:') else kid_id)
+            rec(k, kid_id)
     rec(ns, '')
     # namespace-level attributes and the repository prologue take part in the frame as one pseudo element
     pro = [[k.tag, sorted(k.attrib.items())] for k in root.kids if k.tag != 'namespace']
